@@ -1,7 +1,7 @@
 (* C15 - simpliciality measures. *)
 From Coq Require Import String ZArith QArith List Bool.
 From XV Require Import Base.Label Base.LSet Base.ODict Base.Attr Base.Outcome Model.Hypergraph Model.Hodge
-  Model.Simpliciality Proofs.TrieProofs Proofs.SimplicialityMore Proofs.HgInv Proofs.SortProofs Proofs.QuotCount Proofs.EditDistance Proofs.HgStep Proofs.ClosedScores Proofs.FaceEditRange.
+  Model.Simpliciality Proofs.TrieProofs Proofs.SimplicialityMore Proofs.HgInv Proofs.SortProofs Proofs.QuotCount Proofs.EditDistance Proofs.HgStep Proofs.ClosedScores Proofs.FaceEditRange Gen.MaxSubfaces Proofs.SubfacesSource.
 Import ListNotations.
 
 (* the prefix tree answers exactly: is the (sorted) word one of the (sorted) inserted words *)
@@ -92,6 +92,12 @@ Theorem C15_max_subfaces_counts : forall (f : list lbl) k, (1 <= k <= length f)%
   max_number_of_subfaces k (length f) = Z.of_nat (length (subsets_between f k (length f - 1))).
 Proof. exact max_subfaces_counts. Qed.
 Print Assumptions C15_max_subfaces_counts.
+
+(* THE SOURCE TIE for the normaliser: Gen/MaxSubfaces.v is regenerated on every run from
+   xgi/algorithms/simpliciality.py::_max_number_of_subfaces (harness/translate_subfaces.py, fail-closed) *)
+Theorem C15_max_subfaces_is_source : forall k n, max_number_of_subfaces k n = src_max_subfaces k n.
+Proof. exact max_number_of_subfaces_is_source. Qed.
+Print Assumptions C15_max_subfaces_is_source.
 
 (* the simplicial fraction is 1 on downward-closed hypergraphs *)
 Theorem C15_fraction_one_on_closed : forall s k excl, Inv s -> labels_orderable s ->
